@@ -172,6 +172,36 @@ def run(ctx):
     for _ in range(150 if quick else 2000):
         for kind, l, r in sugar_pairs(rng, g):
             cases.append((kind, l, r))
+    # infix assertions whose operands contain blocks that contain infix assertions (the sugar binds
+    # the same two hidden names at every level: the innermost binding must win inside a block)
+    OPERANDS = ["1", "({(3 == 3) 1} apply)", "({(1 == 2) 1, 2} apply)", "(2 {(|X| (X == 2) X)} apply)", "((1 == 1) 1)",
+                "({{(4 > 3) 1} apply} apply)", "(3 (|Y| {(Y != 1) 1} apply))", "([{(2 >= 2) 1} apply] length)"]
+    for A in OPERANDS:
+        for B in OPERANDS:
+            for op, w in (("==", "?eq"), ("!=", "?ne"), ("<", "?lt"), (">=", "?ge")):
+                cases.append(("infix", "(1, 2) (%s %s %s) \"yes\"" % (A, op, B), "(1, 2) ?(let X1 := %s; let X2 := %s; X1 X2 %s) \"yes\"" % (A, B, w)))
+    # strings in splices in strings ... to depth 4, the innermost literal holding bytes that mean
+    # something to the scanner elsewhere (brackets, also unbalanced; quote, backslash, splice
+    # delimiters): the byte (where it can be written) and its \x / octal escapes are the same
+    # literal at every depth, and the value is what was written
+    expected = {}
+
+    def nest(lit, d):
+        return '"%s"' % lit if d == 0 else '"a%%( %s %%)b"' % nest(lit, d - 1)
+
+    def hexed(v):
+        return "".join("\\x%02x" % ord(ch) for ch in v)
+
+    def octed(v):
+        return "".join("\\%03o" % ord(ch) for ch in v)
+    INNER = [(v, v) for v in ("(", ")", "[", "]", "{", "}", "((", ")(", "([{", "}])", "x(", "a b")]
+    INNER += [('"', '\\"'), ("\\", "\\\\"), (") %) (", None), ("%( (", None), ("%)", None), ('")', None)]
+    for depth in range(0, 5):
+        for value, written in INNER:
+            l = nest(written if written is not None else octed(value), depth)
+            r = nest(hexed(value), depth)
+            cases.append(("nested-escape", l, r))
+            expected[l] = expected[r] = ("a" * depth + value + "b" * depth).encode("latin1").hex()
     qs = list(dict.fromkeys([c[1] for c in cases] + [c[2] for c in cases]))
     rr = zw.run_cases([zw.enc(q, t=3, max=engine.LIMIT) for q in qs])
     canon = {q: engine.canon_impl(r) for q, r in zip(qs, rr)}
@@ -190,6 +220,12 @@ def run(ctx):
             # (and a `,` fed several stacks interleaves its branches: compare as multisets)
             cl = (cl[0], sorted(e for e in cl[1] if e.startswith("R")))
             cr = (cr[0], sorted(e for e in cr[1] if e.startswith("R")))
+        if kind == "nested-escape":
+            want = ("DONE", ["R[s:%s:0]" % expected[l]])
+            for q, c in ((l, cl), (r, cr)):
+                if c != want:
+                    bad("`%s` should yield the string %s; got %s %s" % (q, bytes.fromhex(expected[l]), c[0], " ".join(c[1])[:160]), {"query": q, "kind": kind, "expected_hex": expected[l]})
+            continue
         if cl != cr:
             bad("equivalent notations differ (%s): `%s` -> %s %s ; `%s` -> %s %s" %
                 (kind, l[:160], cl[0], " ".join(cl[1])[:120], r[:160], cr[0], " ".join(cr[1])[:120]),
@@ -199,7 +235,7 @@ def run(ctx):
     ctx.cov.update({
         "evaluations": evaluations,
         "distinct_nontrivial": len(nontrivial),
-        "rule": "random nested programs (depth <= 3) + string-heavy ones, each (a) run with and without tree::simplify, (b) its simplified tree compared with the model's simplify of the parsed tree, (c) rewritten by every applicable equivalence (two random layouts with all three comment styles, parentheses, string continuation, hex/octal escapes, raw strings, %s %d %x %o %b expansions) and generated sugar pairs (E? / (E,), if / ALT of assertions, ?(E) / capture, infix / let); non-trivial = terminates with at least one result",
+        "rule": "random nested programs (depth <= 3) + string-heavy ones, each (a) run with and without tree::simplify, (b) its simplified tree compared with the model's simplify of the parsed tree, (c) rewritten by every applicable equivalence (two random layouts with all three comment styles, parentheses, string continuation, hex/octal escapes, raw strings, %s %d %x %o %b expansions) strings nested in splices to depth 4 whose innermost literal holds brackets / % / quotes written as bytes and as escapes (value checked), and generated sugar pairs (E? / (E,), if / ALT of assertions, ?(E) / capture, infix / let); non-trivial = terminates with at least one result",
         "samples": [cases[0][2][:200], cases[len(cases) // 2][2][:200], cases[-1][1], cases[-1][2]],
         "rewrite_kinds": kinds,
         "trees_changed_by_simplify": changed,
